@@ -44,6 +44,17 @@ def run(chk):
     nm = 160 if chk.quick else 3000
     lines += gen_poly.make_cases(chk.seed * 17 + 29, nm, maxdim=3, nobj=2, steps=3, pq=0.05, pobs=0.05, start=900000,
                                  special=0.9, special_kinds=["pending_gens", "pending_cons", "pending_gens"])
+    # binary mutators with arguments (and receivers) holding pending rows, then comparison queries asked twice of the
+    # receiver itself and of an equal twin (stale sortedness / saturation flags show only at the second query)
+    BIN = ["intersection_assign", "poly_hull_assign", "time_elapse_assign", "poly_difference_assign", "concatenate_assign",
+           "add_generators_from", "add_constraints", "add_generators"]
+    nbq = 20 if chk.quick else 400
+    for i, op in enumerate(BIN):
+        ls = gen_poly.make_cases(chk.seed * 23 + 41 + i, nbq, maxdim=3, nobj=2, steps=2, ops=[op], pq=0.0, pobs=0.1, start=950000 + i * nbq,
+                                 special=0.7, special_kinds=["pending_cons", "pending_gens", "line", "lowdim"])
+        lines += gen_poly.with_battery(ls, chk.seed * 29 + i)
+    # merging of row systems (one-description receiver, minimized argument with a pending row), queries asked twice
+    lines += gen_poly.make_merge_cases(chk.seed * 37 + 3, 1200 if chk.quick else 12000)
     cdir = os.path.join(common.VERIF, "corpus", "C01")
     corpus = []
     if os.path.isdir(cdir):
